@@ -9,7 +9,7 @@ from ..common import HarnessTimeout, exc_name, generic_replay
 RULE = ('message lists (<= 6 messages of all types, sysex lengths 0..20) x EVERY cut offset 0..total of their byte stream x random '
         'segmentations of the bytes before the cut, sent over socket.socketpair() with the receiving SocketPort polled between '
         'segments, then the peer closes (close / shutdown); iteration of the receiving port under a sleep counter; close '
-        'visibility (peer sees EOF); a loopback PortServer with two clients; format/parse of all ports 1..65535 x hosts. '
+        'visibility (peer sees EOF); bursts of 1..65536 bytes (every power of two around the usual buffer sizes) from a peer that stays connected, with the non-blocking calls under a 3 s watchdog; a loopback PortServer with two clients, one of them bursting and then idle; format/parse of all ports 1..65535 x hosts. '
         'Distinct by (messages, cut, segmentation); non-trivial = cut strictly inside the stream')
 
 
@@ -102,7 +102,58 @@ def close_visible():
                 pass
 
 
-def server_case(rng):
+def burst_msgs(n, base):
+    """messages whose encodings total exactly n bytes: note_ons and (n % 3) clock bytes"""
+    import mido
+    out = [portsim.msg_of(base + i) for i in range(n // 3)]
+    return out + [mido.Message('clock') for _ in range(n % 3)]
+
+
+def open_burst(sizes):
+    """The peer sends bursts of exactly the given byte sizes and stays connected and silent; after each burst the
+    non-blocking iter_pending() must return, with every message that has arrived completely."""
+    from mido.sockets import SocketPort
+    a, b = socket.socketpair()
+    port = SocketPort('pair', 1, conn=a)
+    try:
+        base = 0
+        for n in sizes:
+            ms = burst_msgs(n, base)
+            base += len(ms)
+            b.sendall(b''.join(bytes(m.bytes()) for m in ms))
+            result = {}
+
+            def work():
+                try:
+                    result['got'] = [msgs.canon_msg(m) for m in port.iter_pending()]
+                except Exception as e:
+                    result['err'] = f'{type(e).__name__}: {e}'
+            t = threading.Thread(target=work, daemon=True)
+            t.start()
+            t.join(3)
+            if t.is_alive():
+                b.close()           # lets the blocked reader see EOF and finish
+                t.join(3)
+                return f'the non-blocking iter_pending() did not return within 3 s after a burst of {n} bytes from a peer that stays connected'
+            if 'err' in result:
+                return 'iter_pending() raised ' + result['err']
+            want = [msgs.canon_msg(m) for m in ms]
+            if result['got'] != want:
+                return f'after a burst of {n} bytes {len(result["got"])} of the {len(want)} messages that arrived completely were handed out'
+        return None
+    finally:
+        try:
+            port.close()
+        except Exception:
+            pass
+        for s_ in (a, b):
+            try:
+                s_.close()
+            except Exception:
+                pass
+
+
+def server_case(rng, burst=None):
     """Two clients send to a loopback PortServer; poll() must hand out both without blocking."""
     import mido
     from mido import sockets
@@ -120,12 +171,20 @@ def server_case(rng):
             m = portsim.msg_of(1000 + i)
             c.send(m)
             sent.append(msgs.canon_msg(m))
+        if burst:
+            # one client sends a burst of exactly `burst` bytes in one write and then stays connected and silent
+            ms = burst_msgs(burst, 2000)
+            clients[0]._wfile.write(b''.join(bytes(m.bytes()) for m in ms))
+            clients[0]._wfile.flush()
+            sent += [msgs.canon_msg(m) for m in ms]
+            time.sleep(0.05)
+        nsent = len(sent)
 
         def work():
             got = []
             deadline = time.time() + 4
             try:
-                while len(got) < 2 and time.time() < deadline:
+                while len(got) < nsent and time.time() < deadline:
                     m = server.poll()
                     if m is not None:
                         got.append(msgs.canon_msg(m))
@@ -142,7 +201,7 @@ def server_case(rng):
         if 'err' in result:
             return 'PortServer.poll() raised ' + result['err']
         if sorted(result.get('got', [])) != sorted(sent):
-            return f'server handed out {result.get("got")} of the messages {sent} sent by its two clients'
+            return f'server handed out {len(result.get("got", []))} of the {len(sent)} messages sent by its two clients: {str(result.get("got"))[:200]}'
         return None
     finally:
         for c in clients:
@@ -240,6 +299,24 @@ def run(ck):
         f = server_case(rng)
         if f:
             ck.oracle_fail({'server': True}, f)
+    # bursts at the sizes where buffered reading changes behaviour, from a peer that stays connected
+    sizes_list = [[1, 2, 3], [512, 512], [1023, 1], [1024], [1025], [2048, 1], [4096], [8192, 3], [1024, 1024, 5]]
+    if ck.tier != 'quick':
+        sizes_list += [[n] for n in (127, 128, 255, 256, 511, 2047, 3072, 4095, 4097, 16384, 65536)]
+        sizes_list += [[rng.choice([1, 3, 1024, 2048, 4096, rng.randint(1, 5000)]) for _ in range(rng.randint(1, 4))] for _ in range(40)]
+    for sizes in sizes_list:
+        ck.evaluations += 1
+        ck.count('open_burst')
+        ck.note_case(('burst', tuple(sizes)))
+        f = open_burst(sizes)
+        if f:
+            ck.oracle_fail({'burst': sizes}, f)
+    for burst in ([1024, 4096] if ck.tier == 'quick' else [1, 1023, 1024, 1025, 2048, 4096, 8192]):
+        ck.evaluations += 1
+        ck.count('server_burst')
+        f = server_case(rng, burst)
+        if f:
+            ck.oracle_fail({'server': True, 'burst_bytes': burst}, f)
     addr_cases(ck)
     ck.sample({'msgs': 'note_on 0 60 64; sysex 1 2 3', 'cut': 4, 'segments': [[144, 60], [64, 240]]})
     return ck.finish(RULE, assumptions=[
@@ -251,9 +328,11 @@ def run(ck):
 def oracle(case):
     if 'close_visible' in case:
         return close_visible()
+    if 'burst' in case:
+        return open_burst(case['burst'])
     if 'server' in case:
         import random
-        return server_case(random.Random(0))
+        return server_case(random.Random(0), case.get('burst_bytes'))
     if 'host' in case:
         from mido.sockets import format_address, parse_address
         try:
